@@ -59,6 +59,10 @@ def closed_pc(p, G, r, V0, B0, T):
     return out
 
 
+# a portfolio rule the USER keeps as a constant and applies to every PC household he builds (household-local names only)
+PC_USER_RULE = {'DEP': 'L0 + L1 * RLOC - L2 * (AfterTax/F)'}
+
+
 class C09(object):
     id = 'C09'
     anchors = ('BaseHousehold.__init__', 'HouseholdWithExpectations.__init__', 'TaxFlow._GenerateEquations', 'DepositMarket._GenerateEquations', 'Sector.GenerateAssetWeighting', 'ModelSIMiterative.RunStep', 'ModelSIMiterative.RunMethod2')
@@ -79,7 +83,8 @@ class C09(object):
                          'parameters_as_exogenous_series.cases', 'solver_object_shared_with_an_earlier_model.cases',
                          'PC.initial_bills_explicitly_zero.cases',
                          'PC.initial_bills_left_to_the_portfolio_rule.cases',
-                         'solved_again_after_a_failure_at_a_later_period.cases')
+                         'solved_again_after_a_failure_at_a_later_period.cases',
+                         'PC.portfolio_rule_object_kept_and_reapplied_by_the_user.cases')
 
     def n_cases(self, tier):
         return 60 if tier == 'quick' else 6000
@@ -116,7 +121,8 @@ class C09(object):
                 # PC started from household wealth and disposable income only: the initial bill holding is what the
                 # portfolio rule gives at k=0 (the solver derives it from the declared values)
                 'B0_derived': which == 'PC' and (idx // 7) % 4 == 3,
-                'retry_after_failure': (idx // 7) % 3 == 1}
+                'retry_after_failure': (idx // 7) % 3 == 1,
+                'user_rule': which == 'PC' and (idx // 7) % 2 == 0}
         if case['B0_derived']:
             case['book_first'] = False      # the builder's book mode declares its own initial bill holding
         if which == 'PAIR':
@@ -137,7 +143,7 @@ class C09(object):
 
     # ------------------------------------------------------------------------------------------
     def configure(self, b, mod, which, p, G, r, V0, YD0, T, prefix='', params_exogenous=False, B0_zero=False,
-                  B0_derived=False):
+                  B0_derived=False, user_rule=False):
         """Set parameters/paths/initial stocks of one book economy through the public API; returns
         (closed form, {symbol: series name})."""
         c = b.Country
@@ -154,6 +160,16 @@ class C09(object):
         if which == 'PC':
             c['TRE'].SetExogenous('DEM_GOOD', list(G))
             c['DEP'].SetExogenous('r', list(r))
+            if user_rule:
+                # the rule object has already been applied to the household of another PC economy (never solved)
+                from vf import ambient as _amb
+                b_prev = _amb.book_builders()['PC'](country_code='P0', use_book_exogenous=False)
+                b_prev.build_model()
+                h_prev = b_prev.Country['HH']
+                h_prev.AddVariable('RLOC', 'the deposit rate under a household-local name', b_prev.Country['DEP'].GetVariableName('r'))
+                h_prev.GenerateAssetWeighting(PC_USER_RULE, 'MON')
+                hh.AddVariable('RLOC', 'the deposit rate under a household-local name', c['DEP'].GetVariableName('r'))
+                hh.GenerateAssetWeighting(PC_USER_RULE, 'MON')
             for lv, key in (('L0', 'l0'), ('L1', 'l1'), ('L2', 'l2')):
                 if params_exogenous:
                     hh.SetExogenous(lv, [p[key]] * (T + 3))
@@ -287,7 +303,9 @@ class C09(object):
             V0 = case['V0']
         cf, names = self.configure(b, mod, which, p, case['G'], case['r'], V0, case['YD0'], T,
                                    params_exogenous=bool(case.get('params_exogenous')), B0_zero=bool(case.get('B0_zero')),
-                                   B0_derived=bool(case.get('B0_derived')))
+                                   B0_derived=bool(case.get('B0_derived')), user_rule=bool(case.get('user_rule')))
+        if case.get('user_rule'):
+            rec.count('PC.portfolio_rule_object_kept_and_reapplied_by_the_user.cases')
         if case.get('B0_derived'):
             rec.count('PC.initial_bills_left_to_the_portfolio_rule.cases')
         if case.get('B0_zero'):
